@@ -23,10 +23,10 @@ DESIGN_REF = "DESIGN.md section 4 / C10"
 CHUNK = 1
 RULE = ("BFS over all abstract memory states (tuples of <= maxcor accepted letters) x 8 "
         "candidate letters (4 positive-curvature, 4 rejected kinds: y=0, s.y<0, s.y=0, s.y=NaN), "
-        "maxcor in 1..3, every edge executed on the real update_lbfgs_matrices by replay; "
+        "maxcor in 1..3, with is_force_update in {False, True}, every edge executed on the real update_lbfgs_matrices by replay; "
         "plus ALL letter sequences to depth maxcor+2 (quick) / 5 (thorough) compared with "
         "the canonical history of their model state; plus 40-step cyclic sequences for "
-        "maxcor 1..10, n up to 12; plus every update intercepted during real runs; "
+        "maxcor 1..10, n up to 12; plus every update intercepted during real runs (incl. runs with maxls in {1,2,3}: failed searches and memory resets), where the memory and matrices handed to the update must also be consistent BEFORE it and unchanged since the previous one; "
         "non-trivial = sequence containing an accepted and a rejected candidate or an "
         "overflow of the memory; distinct = distinct sequence")
 ASSUMPTIONS = [
@@ -81,12 +81,14 @@ def cases(tier, variants):
     for v in variants:
         for m in mcs:
             yield dict(part="bfs", var=v, maxcor=m)
+            yield dict(part="bfs", var=v, maxcor=m, force=True)
             depth = m + 2 if tier == "quick" else 5
             for pre in itertools.product(OPS, repeat=2):
                 yield dict(part="seq", var=v, maxcor=m, prefix="".join(pre), depth=depth)
         for m in range(1, 11):
             for n in ((1, 2, 5, 12) if tier == "thorough" else (1, 5, 12)):
                 yield dict(part="long", var=v, maxcor=m, n=n)
+                yield dict(part="long", var=v, maxcor=m, n=n, force=True)
     yield from F.convex_cases(2, variants, (1, 2, 5), fams=("soft",), hesses=("rot4",),
                               extra=dict(part="icp"))
     for v in variants:
@@ -95,6 +97,13 @@ def cases(tier, variants):
                 for nn in (2, 5):
                     yield dict(part="icp", kind="nonconvex", fam=fam, n=nn, box="box",
                                start="face", var=v, maxcor=m)
+        # runs with failed line searches (memory resets) followed by further iterations
+        for fam in ("expsum", "oscil", "coswell", "rastrigin"):
+            for mls in (1, 2, 3):
+                for m in (1, 3):
+                    for nn in (1, 3):
+                        yield dict(part="icp", kind="nonconvex", fam=fam, n=nn, box="box",
+                                   start="in", var=v, maxcor=m, maxls=mls)
 
 
 # --------------------------------------------------------------------------- oracle
@@ -168,9 +177,12 @@ def check_state(X, G, mats, maxcor, expectX, eps=EPS):
 class Mem:
     """A fresh real memory (deques + matrices object) driven through the real update."""
 
-    def __init__(self, n, maxcor, x0=None, g0=None):
+    def __init__(self, n, maxcor, x0=None, g0=None, force=False):
         from lbfgsb.bfgsmats import LBFGSB_MATRICES
         self.n, self.maxcor = n, maxcor
+        # letter: is_force_update (the solver sets it when an update function is in use:
+        # the matrices are rebuilt from the memory even when the candidate is rejected)
+        self.force = force
         x = np.array([0.3, -0.2, 0.1, 0.7, -0.4, 0.9, 0.05, -0.6, 0.2, 0.8, -0.1, 0.5])[:n] \
             if x0 is None else x0
         g = np.array([1.0, 2.0, -0.5, 0.3, 0.9, -1.2, 0.4, 0.1, -0.7, 0.6, 1.5, -0.2])[:n] \
@@ -192,7 +204,7 @@ class Mem:
         before = snapshot(self.X, self.G, self.mats)
         try:
             ret = update_lbfgs_matrices(xk.copy(), gk.copy(), self.X, self.G, self.maxcor,
-                                        self.mats, False)
+                                        self.mats, self.force)
         except core.CaseTimeout:
             raise
         except Exception as e:
@@ -204,8 +216,12 @@ class Mem:
             self.refX = (self.refX + [xk])[-(self.maxcor + 1):]
             self.refG = (self.refG + [gk])[-(self.maxcor + 1):]
         else:
-            if not same_snapshot(before, snapshot(self.X, self.G, self.mats)):
+            if not self.force and not same_snapshot(before, snapshot(self.X, self.G, self.mats)):
                 out.append(("rejected_candidate_changed_memory", {}))
+            elif self.force and not (len(before[0]) == len(self.X) and all(
+                    np.array_equal(u, w) for u, w in zip(before[0] + before[1],
+                                                         list(self.X) + list(self.G)))):
+                out.append(("rejected_candidate_changed_memory", dict(forced_rebuild=True)))
         out += check_state(self.X, self.G, self.mats, self.maxcor, self.refX)
         return out, acc
 
@@ -225,8 +241,8 @@ def model_next(state, op, maxcor):
     return (state + op)[-maxcor:] if op in ACC else state
 
 
-def replay(hist, n, A, maxcor):
-    mem = Mem(n, maxcor)
+def replay(hist, n, A, maxcor, force=False):
+    mem = Mem(n, maxcor, force=force)
     found = []
     for k, op in enumerate(hist):
         out, _ = mem.step(*A[op])
@@ -250,6 +266,7 @@ def long_letters(n):
 
 def run(case):
     part = case["part"]
+    force = bool(case.get("force"))
     if part in ("bfs", "seq"):
         n, A = alphabet(case["var"])
         m = case["maxcor"]
@@ -261,27 +278,28 @@ def run(case):
             states += 1
             for op in OPS:
                 hist = st + op
-                mem, found = replay(hist, n, A, m)
+                mem, found = replay(hist, n, A, m, force)
                 trans += 1
                 for s, d in found:
                     viol.append(V(s, _case=dict(part="seq1", var=case["var"], maxcor=m,
-                                                seq=hist), **d))
+                                                seq=hist, force=force), **d))
                 impl = abstract(mem, A)
                 want = model_next(st, op, m)
                 if impl != want:
                     viol.append(V("model_state_mismatch",
-                                  _case=dict(part="seq1", var=case["var"], maxcor=m, seq=hist),
+                                  _case=dict(part="seq1", var=case["var"], maxcor=m, seq=hist,
+                                             force=force),
                                   impl=impl, model=want))
                 if want not in seen:
                     seen.add(want)
                     frontier.append(want)
-        return dict(viol=viol[:30], nontrivial=dict(keys=[f"bfs-{case['var']}-{m}-{s}" for s in seen]),
+        return dict(viol=viol[:30], nontrivial=dict(keys=[f"bfs-{case['var']}-{m}-{int(force)}-{s}" for s in seen]),
                     outcomes={f"bfs_maxcor{m}": 1}, n_exec=trans,
                     mc=dict(states=states, transitions=trans, validated=trans),
                     stats={"bfs_states": states, "bfs_transitions": trans})
     if part == "seq1":
         n, A = alphabet(case["var"])
-        mem, found = replay(case["seq"], n, A, case["maxcor"])
+        mem, found = replay(case["seq"], n, A, case["maxcor"], bool(case.get("force")))
         viol = [V(s, **d) for s, d in found]
         st = ""
         for op in case["seq"]:
@@ -325,7 +343,7 @@ def run(case):
     if part == "long":
         n, m = case["n"], case["maxcor"]
         L = long_letters(n)
-        mem = Mem(n, m)
+        mem = Mem(n, m, force=force)
         viol = []
         order = [(i * (case["var"] + 2) + i // 3) % len(L) for i in range(40)]
         for k, j in enumerate(order):
@@ -353,6 +371,12 @@ def run(case):
             if len(after[0][0]) == len(X):    # (a memory reset empties it: not judged here)
                 found.append(V("memory_modified_between_two_updates", call=cnt[0] + 1,
                                previous_accepted=after[0][2]))
+        # what the solver has been using during this iteration: the matrices it hands
+        # over must be the BFGS matrix of the pairs it hands over (also right after a
+        # memory reset)
+        if not is_force_update:
+            for s_, d_ in check_state(X, G, mats, maxcor, [a.copy() for a in X], eps):
+                found.append(V("before_update_" + s_, call=cnt[0] + 1, **d_))
         ss, yy = xk - X[-1], gk - G[-1]
         acc = float(ss @ yy) > eps * float(yy @ yy)
         before = snapshot(X, G, mats)
@@ -370,7 +394,8 @@ def run(case):
     M.update_lbfgs_matrices = wrapped
     try:
         minimize_lbfgsb(x0=p.x0.copy(), fun=p.f, jac=p.g, bounds=p.bounds,
-                        maxcor=case["maxcor"], ftol=0.0, gtol=1e-7, maxiter=40)
+                        maxcor=case["maxcor"], ftol=0.0, gtol=1e-7, maxiter=40,
+                        **({"maxls": case["maxls"]} if case.get("maxls") else {}))
     finally:
         M.update_lbfgs_matrices = orig
     return dict(viol=found[:10], nontrivial=(core.case_hash(case) if cnt[1] or cnt[0] > case["maxcor"] else None),
